@@ -155,6 +155,9 @@ func cmdWorker(args []string) {
 				}
 			}
 			vr.Class = witnessClass(vr.Case, vr.Rule)
+			if vr.Violation.Class != "" {
+				vr.Class = vr.Violation.Class
+			}
 			sum.Viols = append(sum.Viols, vr)
 		}
 		fmt.Fprintf(bw, "END %d\n", i)
@@ -521,7 +524,11 @@ func cmdReplay(args []string) {
 	}
 	fired := false
 	for _, v := range res.Viol {
-		fmt.Printf("violation %v %s: %s\n", v.Props, v.Rule, v.Msg)
+		if v.Class != "" {
+			fmt.Printf("violation %v %s class=%s: %s\n", v.Props, v.Rule, v.Class, v.Msg)
+		} else {
+			fmt.Printf("violation %v %s: %s\n", v.Props, v.Rule, v.Msg)
+		}
 		if v.Rule == rf.Rule {
 			fired = true
 		}
